@@ -3,6 +3,14 @@
 import json, subprocess
 
 CLAIMS = {
+ "C17": dict(
+   text="The pending view of a write batch (after SetPending(true): a deleted key reports (true,nil), a put key (false,value), an untouched key (false,nil); Reset clears it) is stated as field-level contracts and discharged for the real Put/Delete/GetPending/SetPending/Reset of the leveldb, pebble and memorydb batches; rawdb's table batch is verified to forward to the wrapped batch; two SMT lemmas check the step from the field-level contracts to the interface-level ghost contract used by clients.",
+   note="Assumed: goleveldb / pebble engines themselves (b.b.Put/Delete/Commit are external), iterator order, Write/Replay semantics. The interface-level ghost contract (pendOn/pendDel) is trusted at client call sites; the refinement is checked only through the two abstract lemmas. Repaired defect: see KNOWN_FINDINGS.txt (fixed: a94806dd).",
+   design="4 (C17)", technique="contract-based deductive verification: behavioural-subtyping contracts on each batch implementation, VCs from go/ssa, z3/cvc5"),
+ "C01": dict(
+   text="Once-only spending inside a Qi transaction on the real ProcessQiTx: loop invariants (bounds, tracking on, the outpoint just processed is recorded deleted in the pending batch, recorded deletions only grow) discharged on the real input loop; GetUTXOWithBatch returns nil for an outpoint recorded deleted and DeleteUTXO records the deletion (contracts discharged on the real functions); an SMT lemma gives the induction step to pairwise-distinct inputs. Holds for every storage engine through the C17 batch contracts.",
+   note="Not yet under contract: value conservation (inputs = outputs + fee), denomination rule, ownership/signature obligations, worker path. Assumed: UtxoKey is a function of (hash,index); ethdb.Batch ghost contract at interface call sites (backed by C17); cross-block durability rests on the KV engines.",
+   design="4 (C01)", technique="contract-based deductive verification with ghost pending-view state and loop invariants, VCs from go/ssa, z3/cvc5"),
  "C12": dict(
    text="Frame contracts on the real EVM call kinds: Call, CallCode, DelegateCall, StaticCall end in an error only after revertToSnapshot(snapshot taken at entry) or with no journalled mutation, so the mutation counter and the ETX / deleted-lockup list lengths are those at entry (post-fork for the lockup branch, as in the code); evm.snapshot/revertToSnapshot record and restore the state revision and both list lengths. Ghost state (mut, snapTaken, mutAt) is threaded through the vm.StateDB interface contract.",
    note="Assumed (trusted) contracts: vm.StateDB methods' ghost effects (RevertToSnapshot restores mut to its value at Snapshot: the journal obligations J1-J4 of core/state are not yet discharged), interpreter.Run / RunLockupContract never rewrite older snapshot records, precompiles and tracers are read-only. Not yet under contract: create/Create (ErrCodeStoreOutOfGas path), the coinbasesDeleted map vs. evm.Batch coupling.",
